@@ -630,6 +630,7 @@ pub mod verif {
         quarantine_on: bool,
         quarantine: Vec<Pin<Box<GcBox<dyn GcManaged>>>>,
         freed: HashSet<usize>,
+        dead_stacks: Vec<(usize, usize)>,
         uaf: Vec<String>,
         types: StdHashMap<usize, &'static str>,
         collections: usize,
@@ -649,6 +650,7 @@ pub mod verif {
             quarantine_on: false,
             quarantine: Vec::new(),
             freed: HashSet::new(),
+            dead_stacks: Vec::new(),
             uaf: Vec::new(),
             types: StdHashMap::new(),
             collections: 0,
@@ -709,6 +711,7 @@ pub mod verif {
         let boxes = STATE.with(|s| {
             let mut s = s.borrow_mut();
             s.freed.clear();
+            s.dead_stacks.clear();
             mem::take(&mut s.quarantine)
         });
         drop(boxes);
@@ -773,8 +776,32 @@ pub mod verif {
         let addr = obj.as_ref().get_ref() as *const _ as *const () as usize;
         STATE.with(|s| {
             let mut s = s.borrow_mut();
+            if s.types.get(&addr).copied()
+                == Some(any::type_name::<RefCell<crate::object::ObjFiber>>())
+            {
+                // A swept fiber's value stack is dead memory: remember its address range so that a
+                // captured-variable cell still pointing into it can be recognised.
+                let data = &obj.data as *const dyn GcManaged as *const ()
+                    as *const RefCell<crate::object::ObjFiber>;
+                if let Ok(fiber) = unsafe { (*data).try_borrow() } {
+                    let begin = fiber.stack.as_ptr() as usize;
+                    let end = begin + crate::object::VERIF_STACK_MAX * mem::size_of::<crate::value::Value>();
+                    s.dead_stacks.push((begin, end));
+                }
+            }
             s.freed.insert(addr);
             s.quarantine.push(obj);
+        });
+    }
+
+    /// Called with the raw slot address of an open captured-variable cell before it is used.
+    pub(crate) fn check_stack_ptr(addr: usize, what: &str) {
+        let _ = STATE.try_with(|s| {
+            if let Ok(mut s) = s.try_borrow_mut() {
+                if s.dead_stacks.iter().any(|&(b, e)| addr >= b && addr < e) && s.uaf.len() < 64 {
+                    s.uaf.push(format!("UafStack open cell {} into the stack of a swept fiber", what));
+                }
+            }
         });
     }
 
